@@ -13,7 +13,7 @@ from .query_replay import L, NOMAX, forest_of
 
 SHARED = [1, {"k": [2.5, None, True]}]
 VPOOL = ["éü\n\t\"q\\ \x01", 3.25, [1, [2, {"z": None}]], {"k": "v", "n": [1, 2]}, True, -0.0, 1e308, "", 0,
-         "\U0001F600 astral", [], {}, -17, "plain"]
+         "\U0001F600 astral", [], {}, -17, "plain", "line\u2028sep \u2029para \u0085nel \r\n", {"nested \u2028": ["a \u0085 ", 1]}]
 
 
 def value_of(tok):
@@ -454,6 +454,28 @@ def perform_graph(q, par, ch, idx):
                                        "lines": lines[:14], "expected": exp[:14]})
             if list(ex) != lines:
                 res["bad"].append({"kind": kind, "prop": prop, "direct": True, "what": "second iteration differs"})
+            if kind != "dot" and variant == 0 and not fls.symmetric_difference(par) and not sts and tok["nodes"]:
+                # default identifiers stay distinct per node and stable across iterations of ONE exporter, also when the
+                # tree grows between two iterations and when two iterations are interleaved
+                it1 = iter(ex)
+                first = next(it1)
+                inter = list(ex)
+                rest = [first] + list(it1)
+                grown = N.register(Node("grown", parent=objs[tok["nodes"][-1]]), "grown")
+                fls.add("grown")
+                try:
+                    after = list(ex)
+                finally:
+                    grown.parent = None
+                    fls.discard("grown")
+                idre = re.compile(r'^ *"?(0x[0-9a-f]+|N\d+)"?(?: \[|\[|;)')
+                ids_before = [m.group(1) for m in map(idre.match, lines) if m]
+                ids_after = [m.group(1) for m in map(idre.match, after) if m]
+                if inter != lines or rest != lines:
+                    res["bad"].append({"kind": kind, "prop": prop, "direct": True, "what": "interleaved iterations of one exporter differ", "lines": inter[:8]})
+                elif len(set(ids_after)) != len(ids_after) or ids_after[:len(ids_before)] != ids_before or len(ids_after) not in (len(ids_before), len(ids_before) + 1):
+                    res["bad"].append({"kind": kind, "prop": prop, "direct": True, "what": "identifiers not distinct/stable after the tree grew between two iterations",
+                                       "ids_before": ids_before, "ids_after": ids_after, "lines": after[:12]})
             if variant == 1:
                 # files: to_dotfile = lines + newline; to_file = fenced lines
                 with tempfile.TemporaryDirectory(prefix="verif-exp-") as tmp:
